@@ -38,8 +38,8 @@ ASSUMPTIONS = [
     "CPython re, eval/exec and str are trusted",
 ]
 BOUNDS = {
-    "quick": {"k_full": 3, "k_core": 4, "units": "<=2 all junctions, 3 with junctions {'',LF}", "rep_max": 256, "time_limit": 4},
-    "thorough": {"k_full": 4, "k_core": 5, "units": "<=2 all junctions, 3 with junctions {'',LF,CRLF}, 4 without junctions", "rep_max": 4096, "time_limit": 20},
+    "quick": {"bytes": "documents given as bytes (BOM+bytes, bytes, BOM+file): all sequences of <=2 (3 with special first two) over 14 pieces incl. U+FEFF U+FEFB U+FFFB U+FFFF U+F000 U+EFFF", "k_full": 3, "k_core": 4, "units": "<=2 all junctions, 3 with junctions {'',LF}", "rep_max": 256, "time_limit": 4},
+    "thorough": {"bytes": "as quick", "k_full": 4, "k_core": 5, "units": "<=2 all junctions, 3 with junctions {'',LF,CRLF}, 4 without junctions", "rep_max": 4096, "time_limit": 20},
 }
 
 POOL_ASCII = ["a", "b", "z", "Q"]
